@@ -51,13 +51,19 @@ func zzPreState(svc *Service, eps []*domain.Endpoint) {
 		return
 	}
 	for _, ep := range eps {
-		if gosym.Choice("breaker-open", 2) == 1 {
+		switch gosym.Choice("breaker-state", 3) {
+		case 1: // open: five failures just now
 			cb := svc.GetCircuitBreaker(ep.Name)
 			for i := 0; i < circuitBreakerThreshold; i++ {
 				cb.RecordFailure()
 			}
 			zzSkippedOpen++
 			zzOpened[ep.Name] = true
+		case 2: // closed, one failure short of tripping: the next failed attempt opens it
+			cb := svc.GetCircuitBreaker(ep.Name)
+			for i := 0; i < circuitBreakerThreshold-1; i++ {
+				cb.RecordFailure()
+			}
 		}
 	}
 }
